@@ -1,8 +1,7 @@
 import FeatherModel.Lemmas.DiffApply
 
 /-!
-# `apply` keeps mapping sets well formed (unique keys, entries stored under the key their first name gives) when the
-target namespace is not the first one
+# `apply` keeps mapping sets well formed (unique keys, entries stored under the key their first name gives)
 -/
 
 namespace DiffModel
@@ -103,8 +102,9 @@ theorem nodup_applyMap (ops : Ops K D T) (ns N : Nat) (child : D → T → Optio
 the creation from the key establish it -/
 theorem apply_preserves (ops : Ops K D T) (ns N : Nat) (child : D → T → Option T) (Q : K → T → Prop) (Pd : D → Prop)
     (hchildQ : ∀ k d t t', Pd d → Q k t → child d t = some t' → Q k t')
-    (hsetQ : ∀ k t b, Q k t → Q k (ops.setNames t ((ops.names t).set ns (some b))))
-    (hkeyQ : ∀ k b, Q k (ops.setNames (ops.fromKey N k) ((ops.names (ops.fromKey N k)).set ns (some b))))
+    (hsetQ : ∀ k t b, ns ≠ 0 → Q k t → Q k (ops.setNames t ((ops.names t).set ns (some b))))
+    (hkeyQ : ∀ k b, ns ≠ 0 → (ops.names (ops.fromKey N k))[ns]? = some none →
+      Q k (ops.setNames (ops.fromKey N k) ((ops.names (ops.fromKey N k)).set ns (some b))))
     {ds : AList K D} {ts res : AList K T} (hnD : NoDup ds) (hnT : NoDup ts)
     (hPd : ∀ e ∈ ds, Pd e.2) (hT : ∀ e ∈ ts, Q e.1 e.2)
     (h : applyMap ops ns N child ds ts = some res) : NoDup res ∧ ∀ e ∈ res, Q e.1 e.2 := by
@@ -136,9 +136,13 @@ theorem apply_preserves (ops : Ops K D T) (ns N : Nat) (child : D → T → Opti
       | edit a b => rw [ha] at hk; simp at hk
       | add b =>
         rw [ha] at hk
-        simp only [Option.map_eq_some_iff, Option.some.injEq] at hk
-        obtain ⟨x, hx, rfl⟩ := hk
-        exact hchildQ k d _ _ hpd (hkeyQ k b) hx
+        simp only at hk
+        split at hk
+        · rename_i hcond
+          simp only [Option.map_eq_some_iff, Option.some.injEq] at hk
+          obtain ⟨x, hx, rfl⟩ := hk
+          exact hchildQ k d _ _ hpd (hkeyQ k b hcond.1 hcond.2) hx
+        · cases hk
     | some t =>
       have hq : Q k t := hT (k, t) (mem_of_lookup hlt)
       rw [hlt] at hk
@@ -153,9 +157,10 @@ theorem apply_preserves (ops : Ops K D T) (ns N : Nat) (child : D → T → Opti
         rw [ha] at hk
         simp only at hk
         split at hk
-        · simp only [Option.map_eq_some_iff, Option.some.injEq] at hk
+        · rename_i hcond
+          simp only [Option.map_eq_some_iff, Option.some.injEq] at hk
           obtain ⟨x, hx, rfl⟩ := hk
-          exact hchildQ k d _ _ hpd (hsetQ k t b hq) hx
+          exact hchildQ k d _ _ hpd (hsetQ k t b hcond.1 hq) hx
         · cases hk
       | remove a =>
         rw [ha] at hk
@@ -165,9 +170,10 @@ theorem apply_preserves (ops : Ops K D T) (ns N : Nat) (child : D → T → Opti
         rw [ha] at hk
         simp only at hk
         split at hk
-        · simp only [Option.map_eq_some_iff, Option.some.injEq] at hk
+        · rename_i hcond
+          simp only [Option.map_eq_some_iff, Option.some.injEq] at hk
           obtain ⟨x, hx, rfl⟩ := hk
-          exact hchildQ k d _ _ hpd (hsetQ k t b hq) hx
+          exact hchildQ k d _ _ hpd (hsetQ k t b hcond.1 hq) hx
         · cases hk
 
 end generic
@@ -181,6 +187,11 @@ theorem fromFirstName_length (N : Nat) (s : JStr) (h : 0 < N) : (fromFirstName N
   cases N with
   | zero => cases h
   | succ n => simp [fromFirstName]
+
+theorem fromFirstName_pos {N ns : Nat} {s : JStr} {x : Option JStr} (h : (fromFirstName N s)[ns]? = some x) : 0 < N := by
+  cases N with
+  | zero => simp [fromFirstName] at h
+  | succ n => exact Nat.succ_pos n
 
 theorem fromFirstName_zero (N : Nat) (s : JStr) (h : 0 < N) : (fromFirstName N s)[0]? = some (some s) := by
   cases N with
@@ -197,11 +208,11 @@ theorem params_preserve {ns N : Nat} {ds : AList Nat PDiff} {ts res : AList Nat 
       cases ho : applyOption d.doc t.doc with
       | none => rw [ho] at hc; cases hc
       | some doc => rw [ho] at hc; simp only [Option.some.injEq] at hc; subst hc; exact hq)
-    (by intro k t b hq; exact ⟨hq.1, by simp [paramOps, hq.2]⟩)
-    (by intro k b; exact ⟨rfl, by simp [paramOps]⟩)
+    (by intro k t b _ hq; exact ⟨hq.1, by simp [paramOps, hq.2]⟩)
+    (by intro k b _ _; exact ⟨rfl, by simp [paramOps]⟩)
     hnD hnT (fun _ _ => trivial) hT h
 
-theorem fields_preserve {ns N : Nat} (hns : ns ≠ 0) (hN : 0 < N) {ds : AList MemberKey FDiff} {ts res : AList MemberKey Field}
+theorem fields_preserve {ns N : Nat} {ds : AList MemberKey FDiff} {ts res : AList MemberKey Field}
     (hnD : NoDup ds) (hnT : NoDup ts) (hT : ∀ e ∈ ts, Field.WF N e.1 e.2)
     (h : applyMap fieldOps ns N applyField ds ts = some res) : NoDup res ∧ ∀ e ∈ res, Field.WF N e.1 e.2 :=
   apply_preserves fieldOps ns N applyField (Field.WF N) (fun _ => True)
@@ -212,15 +223,16 @@ theorem fields_preserve {ns N : Nat} (hns : ns ≠ 0) (hN : 0 < N) {ds : AList M
       | none => rw [ho] at hc; cases hc
       | some doc => rw [ho] at hc; simp only [Option.some.injEq] at hc; subst hc; exact hq)
     (by
-      intro k t b hq
+      intro k t b hns hq
       exact ⟨hq.1, by simp [fieldOps, hq.2.1], by simp only [fieldOps]; rw [getElem?_set_zero hns]; exact hq.2.2⟩)
     (by
-      intro k b
+      intro k b hns hc
+      have hN : 0 < N := fromFirstName_pos hc
       exact ⟨rfl, by simp [fieldOps, fromFirstName_length N k.1 hN],
         by simp only [fieldOps]; rw [getElem?_set_zero hns]; exact fromFirstName_zero N k.1 hN⟩)
     hnD hnT (fun _ _ => trivial) hT h
 
-theorem methods_preserve {ns N : Nat} (hns : ns ≠ 0) (hN : 0 < N) {ds : AList MemberKey MDiff} {ts res : AList MemberKey Method}
+theorem methods_preserve {ns N : Nat} {ds : AList MemberKey MDiff} {ts res : AList MemberKey Method}
     (hnD : NoDup ds) (hnT : NoDup ts) (hPd : ∀ e ∈ ds, NoDup e.2.params) (hT : ∀ e ∈ ts, Method.WF N e.1 e.2)
     (h : applyMap methodOps ns N (applyMethod ns N) ds ts = some res) : NoDup res ∧ ∀ e ∈ res, Method.WF N e.1 e.2 :=
   apply_preserves methodOps ns N (applyMethod ns N) (Method.WF N) (fun d => NoDup d.params)
@@ -242,17 +254,18 @@ theorem methods_preserve {ns N : Nat} (hns : ns ≠ 0) (hN : 0 < N) {ds : AList 
           obtain ⟨hn, hw⟩ := params_preserve hd h4 h5 hp
           exact ⟨h1, h2, h3, hn, hw⟩)
     (by
-      intro k t b hq
+      intro k t b hns hq
       obtain ⟨h1, h2, h3, h4, h5⟩ := hq
       exact ⟨h1, by simp [methodOps, h2], by simp only [methodOps]; rw [getElem?_set_zero hns]; exact h3, h4, h5⟩)
     (by
-      intro k b
+      intro k b hns hc
+      have hN : 0 < N := fromFirstName_pos hc
       exact ⟨rfl, by simp [methodOps, fromFirstName_length N k.1 hN],
         by simp only [methodOps]; rw [getElem?_set_zero hns]; exact fromFirstName_zero N k.1 hN,
         by simp [methodOps, NoDup, keys], by intro e he; cases he⟩)
     hnD hnT hPd hT h
 
-theorem classes_preserve {ns N : Nat} (hns : ns ≠ 0) (hN : 0 < N) {ds : AList JStr CDiff} {ts res : AList JStr Class}
+theorem classes_preserve {ns N : Nat} {ds : AList JStr CDiff} {ts res : AList JStr Class}
     (hnD : NoDup ds) (hnT : NoDup ts)
     (hPd : ∀ e ∈ ds, NoDup e.2.fields ∧ NoDup e.2.methods ∧ ∀ m ∈ e.2.methods, NoDup m.2.params)
     (hT : ∀ e ∈ ts, Class.WF N e.1 e.2)
@@ -279,15 +292,16 @@ theorem classes_preserve {ns N : Nat} (hns : ns ≠ 0) (hN : 0 < N) {ds : AList 
             rw [hm] at hc
             simp only [Option.some.injEq] at hc
             subst hc
-            obtain ⟨hnf, hwf⟩ := fields_preserve hns hN hd.1 h3 h4 hf
-            obtain ⟨hnm, hwm⟩ := methods_preserve hns hN hd.2.1 h5 hd.2.2 h6 hm
+            obtain ⟨hnf, hwf⟩ := fields_preserve hd.1 h3 h4 hf
+            obtain ⟨hnm, hwm⟩ := methods_preserve hd.2.1 h5 hd.2.2 h6 hm
             exact ⟨h1, h2, hnf, hwf, hnm, hwm⟩)
     (by
-      intro k t b hq
+      intro k t b hns hq
       obtain ⟨h1, h2, h3, h4, h5, h6⟩ := hq
       exact ⟨by simp [classOps, h1], by simp only [classOps]; rw [getElem?_set_zero hns]; exact h2, h3, h4, h5, h6⟩)
     (by
-      intro k b
+      intro k b hns hc
+      have hN : 0 < N := fromFirstName_pos hc
       exact ⟨by simp [classOps, fromFirstName_length N k hN],
         by simp only [classOps]; rw [getElem?_set_zero hns]; exact fromFirstName_zero N k hN,
         by simp [classOps, NoDup, keys], (fun e he => by cases he), by simp [classOps, NoDup, keys], (fun e he => by cases he)⟩)
@@ -319,13 +333,15 @@ theorem applyInfo_length {info : Action JStr} {nss nss' : List JStr} {ns : Nat} 
     · simp only [Option.some.injEq] at h; subst h; simp
     · cases h
 
-/-- **`apply_to` keeps a mapping set well formed** when the target namespace is not the first one -/
-theorem applyTo_preserves_wf {d : Diff} {t r : Mappings} {nsName : JStr} {ns : Nat} (hd : Diff.WF d) (ht : WF t)
-    (hn : t.getNamespace nsName = some ns) (hns : ns ≠ 0) (h : applyTo d t nsName = some r) : WF r := by
+/-- **`apply_to` keeps a mapping set well formed** (in every namespace: what cannot be kept in sync with the keys is refused) -/
+theorem applyTo_preserves_wf {d : Diff} {t r : Mappings} {nsName : JStr} (hd : Diff.WF d) (ht : WF t)
+    (h : applyTo d t nsName = some r) : WF r := by
   obtain ⟨hnd, hkd⟩ := hd
   obtain ⟨hnt, hwt⟩ := ht
-  have hN : 0 < t.ns.length := by have := getNamespace_lt hn; omega
   unfold applyTo at h
+  cases hn : t.getNamespace nsName with
+  | none => rw [hn] at h; cases h
+  | some ns =>
   rw [hn] at h
   simp only [applyAt] at h
   cases hi : applyInfo d.info t.ns ns with
@@ -344,7 +360,7 @@ theorem applyTo_preserves_wf {d : Diff} {t r : Mappings} {nsName : JStr} {ns : N
         rw [hc] at h
         simp only [Option.some.injEq] at h
         subst h
-        obtain ⟨hnr, hwr⟩ := classes_preserve hns hN hnd hnt hkd hwt hc
+        obtain ⟨hnr, hwr⟩ := classes_preserve hnd hnt hkd hwt hc
         refine ⟨hnr, ?_⟩
         intro e he
         simp only
